@@ -7,15 +7,15 @@ import core
 
 # (mode, number of runs) per tier; every job is one driver process writing several runs
 PLAN = {
-    "quick": [("ff", 28), ("apps", 16), ("fault", 16), ("vanish", 12), ("race", 6), ("claim", 1), ("phase", 6)],
-    "thorough": [("ff", 150), ("apps", 80), ("fault", 100), ("vanish", 80), ("race", 30), ("claim", 1), ("phase", 14)],
+    "quick": [("ff", 28), ("apps", 16), ("fault", 16), ("vanish", 12), ("lasttx", 10), ("race", 6), ("claim", 1), ("phase", 6)],
+    "thorough": [("ff", 150), ("apps", 80), ("fault", 100), ("vanish", 80), ("lasttx", 60), ("race", 30), ("claim", 1), ("phase", 14)],
 }
 RUNS_PER_JOB = {"quick": 2, "thorough": 5}
 
 # which modes carry evidence for which property (all traces are validated against all clauses)
 SERVES = {
     "C01": ("ff", "apps", "claim", "phase"), "C02": ("ff", "apps"), "C11": ("ff", "apps"), "C12": ("ff", "apps"), "C13": ("apps", "ff"), "C15": ("apps", "ff"),
-    "C06": ("fault", "vanish", "race"), "C05": None,
+    "C06": ("fault", "vanish", "lasttx", "race"), "C05": None,
 }
 
 
